@@ -48,7 +48,27 @@ def main():
     meta["confirmed"] = confirmed
     # run the check against /repo with the patch applied
     detected = None
-    if confirmed:
+    scratch = os.environ.get("SEED_SCRATCH")
+    if confirmed and scratch:
+        # scratch copies of /verif and /repo: neither is touched (other checks may be running there)
+        sv, sr = "/tmp/seedv_%d" % os.getpid(), "/tmp/seedr_%d" % os.getpid()
+        sh("rsync -a --exclude replays --exclude .git %s/ %s/" % (VERIF, sv))
+        sh("git clone -q /repo %s" % sr)
+        rc, out = sh("git -C %s apply %s" % (sr, patch))
+        try:
+            t0 = time.time()
+            rc, out = sh("VERIF_REPO=%s ./check %s --tier quick" % (sr, pid), cwd=sv, timeout=3000)
+            meta["check_rc"] = rc
+            meta["check_wall_s"] = round(time.time() - t0, 1)
+            lines = [l for l in out.splitlines() if l.startswith(("VIOLATION", "KNOWN-FINDING", "OK ", "CHECK-ERROR"))]
+            viol = [l for l in out.splitlines() if "violation:" in l][:3]
+            meta["check_lines"] = lines
+            meta["check_first_violations"] = [v[:300] for v in viol]
+            detected = (rc == 1 and any(l.startswith("VIOLATION") for l in lines))
+        finally:
+            shutil.rmtree(sv, ignore_errors=True)
+            shutil.rmtree(sr, ignore_errors=True)
+    elif confirmed:
         assert sh("git -C /repo status --porcelain")[1].strip() == "", "/repo is dirty"
         rc, out = sh("git -C /repo apply %s" % patch)
         try:
@@ -72,8 +92,8 @@ def main():
     if os.path.exists(notes):
         meta["needs_to_manifest"] = open(notes).read()
     meta["what_was_run"] = ("fresh worktree of /repo HEAD: demo.py on the unchanged tree (must exit 0); git apply patch.diff; "
-                            "pytest -q (161 must pass); demo.py (must fail); then patch applied to /repo, ./check %s --tier quick, "
-                            "git checkout -- ." % pid)
+                            "pytest -q (161 must pass); demo.py (must fail); then patch applied to /repo (or, with SEED_SCRATCH, to a scratch clone "
+                            "of /repo checked from a scratch copy of /verif), ./check %s --tier quick, git checkout -- ." % pid)
     json.dump(meta, open(os.path.join(d, "meta.json"), "w"), indent=1)
     print(json.dumps({k: meta[k] for k in ("confirmed", "detected_by_quick_check", "check_lines", "tests_with_patch",
                                            "demo_unchanged_rc", "demo_patched_rc") if k in meta}, indent=1))
